@@ -219,6 +219,7 @@ struct Stats {
     cap_not_binding: u64,
     fee_zero: u64,
     older_selected: u64,
+    cap_only: u64,
     newer_equal: u64,
     newer_after: u64,
     bps10000_inc_ok: u64,
@@ -239,6 +240,7 @@ impl Stats {
         self.cap_not_binding += o.cap_not_binding;
         self.fee_zero += o.fee_zero;
         self.older_selected += o.older_selected;
+        self.cap_only += o.cap_only;
         self.newer_equal += o.newer_equal;
         self.newer_after += o.newer_after;
         self.bps10000_inc_ok += o.bps10000_inc_ok;
@@ -410,24 +412,33 @@ fn patch_fee_config(image: &mut [u8], older: Fee, newer: Fee) {
     c.newer_transfer_fee.maximum_fee = newer.max.into();
 }
 
-fn decoy(f: Fee) -> Fee {
-    Fee { bps: ((f.bps as u32 + 3333) % 10_001) as u16, max: f.max ^ 0x5555 }
+/// The schedule entry that is NOT in force. kind 0: rate and cap both differ; kind 1: the same rate, only the cap differs
+/// (a cap-only change is pending / has happened); kind 2: the same cap, only the rate differs.
+fn decoy(f: Fee, kind: u8) -> Fee {
+    let bps = ((f.bps as u32 + 3333) % 10_001) as u16;
+    let max = f.max ^ 0x5555;
+    match kind {
+        0 => Fee { bps, max },
+        1 => Fee { bps: f.bps, max },
+        _ => Fee { bps, max: f.max },
+    }
 }
-/// scenario 0: clock epoch NEWER-1, the fee under test sits in the OLDER slot (decoy in newer);
-/// scenario 1: clock epoch == NEWER; scenario 2: NEWER+1 — the fee under test sits in the NEWER slot (decoy in older).
+/// scenario % 3 = 0: clock epoch NEWER-1, the fee under test sits in the OLDER slot (decoy in newer);
+/// 1: clock epoch == NEWER; 2: NEWER+1 — the fee under test sits in the NEWER slot (decoy in older). scenario / 3 = decoy kind.
 fn scenario_image(template: &[u8], f: Fee, scenario: u8) -> (Vec<u8>, u64) {
     let mut img = template.to_vec();
-    match scenario {
+    let d = decoy(f, scenario / 3);
+    match scenario % 3 {
         0 => {
-            patch_fee_config(&mut img, f, decoy(f));
+            patch_fee_config(&mut img, f, d);
             (img, NEWER_EPOCH - 1)
         }
         1 => {
-            patch_fee_config(&mut img, decoy(f), f);
+            patch_fee_config(&mut img, d, f);
             (img, NEWER_EPOCH)
         }
         _ => {
-            patch_fee_config(&mut img, decoy(f), f);
+            patch_fee_config(&mut img, d, f);
             (img, NEWER_EPOCH + 1)
         }
     }
@@ -474,10 +485,13 @@ fn eval_config(template: &[u8], f: Fee, scenario: u8, grid: Grid, st: &mut Stats
     st.configs += 1;
     let r = with_mint(&img, T22, epoch, |b| {
         for &x in &amounts {
-            match scenario {
+            match scenario % 3 {
                 0 => st.older_selected += 2,
                 1 => st.newer_equal += 2,
                 _ => st.newer_after += 2,
+            }
+            if scenario / 3 == 1 {
+                st.cap_only += 2;
             }
             let (a, p) = b.excluded(x);
             if let Err(d) = check_excluded(Some(f), x, a, p, st) {
@@ -805,7 +819,7 @@ pub fn run_fn(ctx: &Ctx, r: &mut Report) {
     for &b_new in &BPS_ALPHABET {
         for &m_new in &MAX_FEES {
             let newer = Fee { bps: b_new, max: m_new };
-            let older = decoy(newer);
+            let older = decoy(newer, 0);
             match real_two_schedule_image(older, newer) {
                 Ok(real) => {
                     let mut p = template.clone();
@@ -851,7 +865,7 @@ pub fn run_fn(ctx: &Ctx, r: &mut Report) {
                 return st;
             }
             for &max in &max_fees {
-                for sc in 0u8..3 {
+                for sc in 0u8..9 {
                     eval_config(&template, Fee { bps, max }, sc, grid, &mut st);
                 }
             }
@@ -922,6 +936,7 @@ pub fn run_fn(ctx: &Ctx, r: &mut Report) {
     r.guard("fn_cap_exactly_reached", st.cap_exact);
     r.guard("fn_cap_not_binding", st.cap_not_binding);
     r.guard("fn_epoch_before_older_selected", st.older_selected);
+    r.guard("fn_schedule_entries_differing_only_in_the_cap", st.cap_only);
     r.guard("fn_epoch_equal_newer_selected", st.newer_equal);
     r.guard("fn_epoch_after_newer_selected", st.newer_after);
     r.guard("fn_bps10000_included_ok", st.bps10000_inc_ok);
@@ -986,7 +1001,7 @@ pub fn replay_fn(case: &Value) -> Option<Result<(), String>> {
         })()),
         Some("fn_image") => Some((|| {
             let newer = Fee { bps: case["bps"].as_u64().ok_or("bps")? as u16, max: case["max"].as_str().ok_or("max")?.parse::<u64>().map_err(|e| e.to_string())? };
-            let older = decoy(newer);
+            let older = decoy(newer, 0);
             let real = real_two_schedule_image(older, newer)?;
             let mut p = template_image();
             patch_fee_config(&mut p, older, newer);
